@@ -83,6 +83,9 @@ type Knobs struct {
 	PSide           int  // a constructor / decorator body calls String, Visualize, Scope, Provide or Decorate (of an unrelated key) on the container
 	PReenter        int  // C02: probability that a constructor body calls back into the container
 	WDecoSandwich   int  // C12: weight of the compound step "decorate above, resolve from below, decorate in between, resolve again"
+	PGroupOptMulti  int  // Group option (and As) on a constructor with several positional results
+	PVisAfter       int  // an Invoke is followed by Visualize(VisualizeError(its error))
+	PNoResult       int  // C15: constructors without results vs. with empty result objects
 	PErr2           int  // a second error result (both non-nil when the function fails)
 	PReenterDeco    int  // C02: probability that a decorator body calls Invoke (for its own key or others)
 	PEmbedPos       int  // the embedded dig.In / dig.Out of a generated object is not its first field
@@ -106,7 +109,7 @@ func DefaultKnobs() Knobs {
 		Groups: []string{"g", "h"},
 		WScope: 3, WProvide: 10, WDecorate: 3, WInvoke: 7, WVisualize: 0, WString: 0,
 		PAvail: 94, PFresh: 93, POpt: 15, PNamed: 20, PGroupRes: 20, PGroupParam: 20, PSoft: 20, PFlatten: 30,
-		PAs: 15, PAsObj: 8, PExport: 15, PObjParam: 35, PObjResult: 35, PNest: 30, PErr: 25, PVariadic: 5,
+		PAs: 15, PAsObj: 8, PGroupOptMulti: 4, PExport: 15, PObjParam: 35, PObjResult: 35, PNest: 30, PErr: 25, PVariadic: 5,
 		PFault: 0, PPanic: 30, PDecoSelf: 75, PDecoGroup: 25, PDecoMulti: 20, PDecoExtra: 30,
 		PInvokeAll: 96, PInfo: 0, PCallback: 0, PDefer: 15, PRecover: 30, PHole: 40, PLate: 70, PCycleKeep: 5,
 		NoFaults: true, AvoidDecoCycle: true, PreferAvailable: true,
@@ -120,6 +123,7 @@ type gen struct {
 	plainDecl    bool            // encode the leaves of declared objects as ordinary leaves (C15's alternative encoding)
 	focus        []MKey          // keys of the last deliberately rejected registration
 	forceDecoKey *MKey           // genDecorate: first decorated key (genDecoSandwich)
+	orphans      []MKey          // keys decorated without being provided (PDecoOrphan)
 	t            *rapid.T
 	k            Knobs
 	m            *Model // predicted registrations
@@ -293,6 +297,14 @@ func (g *gen) drawParamLeaves(s, n int, pAvail int, allowGroups bool) []pleaf {
 	for i := 0; i < n; i++ {
 		lbl := fmt.Sprintf("p%d", i)
 		var l pleaf
+		if len(g.orphans) > 0 && g.pct(15, lbl+"orphanask") {
+			l.key = g.orphans[g.pick(len(g.orphans), lbl+"ok")]
+			if l.key.Group == "" {
+				l.opt = g.pct(g.k.POpt, lbl+"oopt")
+			}
+			out = append(out, l)
+			continue
+		}
 		if len(g.focus) > 0 && g.pct(g.k.PFocus, lbl+"focus") {
 			l.key = g.focus[g.pick(len(g.focus), lbl+"fk")]
 			if l.key.Group != "" {
@@ -590,6 +602,23 @@ func (g *gen) errAndVariadic(f *Fn) {
 // ---------------------------------------------------------------------------
 
 func (g *gen) genProvide(s int) Op {
+	if g.pct(g.k.PNoResult, "noresult") {
+		// a function that provides nothing (no results, or only an error),
+		// and the same written with empty result objects: both are rejected
+		f := g.newFn()
+		f.P = g.encodeParams(g.drawParamLeaves(s, g.pick(3, "nrp"), 95, true))
+		f.Err = g.pct(50, "nrerr")
+		af := &Fn{ID: f.ID, P: f.P, Err: f.Err}
+		af.R = []Result{{IsObj: true}}
+		switch g.pick(3, "nrshape") {
+		case 1:
+			af.R = []Result{{IsObj: true}, {IsObj: true}}
+		case 2:
+			af.R = []Result{{IsObj: true, Obj: []Result{{IsObj: true}}}}
+		}
+		g.setAlt(len(g.c.Ops), af, nil)
+		return Op{K: OpProvide, S: s, F: f}
+	}
 	if g.pct(g.k.PEmptyGroup, "emptygroup") {
 		// a value group without a name would share its key with the plain
 		// unnamed value of the element type
@@ -715,6 +744,43 @@ func (g *gen) genProvide(s int) Op {
 		l.zero = g.pct(g.k.PZeroRes, lbl+"zero") // flatten: the first element is zero
 		rl = append(rl, l)
 	}
+	multiGroupOpt := false
+	if nres >= 2 && !g.k.NoGroups && len(g.k.Groups) > 0 && g.pct(g.k.PGroupOptMulti, "groupoptmulti") {
+		// Group option on a constructor with several positional results:
+		// every result becomes a member (under its own type, or under the
+		// interfaces of an As list that all of them implement)
+		multiGroupOpt = true
+		grp := g.pickStr(g.k.Groups, "gomg")
+		for i := range rl {
+			rl[i] = rleaf{key: MKey{T: rl[i].key.T, Group: grp}, impl: rl[i].impl, zero: rl[i].zero}
+		}
+		o.Group = grp
+		if g.pct(65, "gomas") {
+			var cands []string
+			for _, i := range g.k.Ifaces {
+				ok := true
+				for _, l := range rl {
+					if l.key.T != i && !implements(l.key.T, i) {
+						ok = false
+					}
+				}
+				if ok {
+					cands = append(cands, i)
+				}
+			}
+			if len(cands) > 0 {
+				n := 1 + g.pick(len(cands), "gomn")
+				if n > 3 {
+					n = 3
+				}
+				start := g.pick(len(cands), "gomi")
+				for j := 0; j < n; j++ {
+					o.As = append(o.As, cands[(start+j)%len(cands)])
+				}
+			}
+		}
+		useAs = false
+	}
 	if useAs {
 		// As needs a concrete result implementing interfaces
 		l := &rl[0]
@@ -749,7 +815,7 @@ func (g *gen) genProvide(s int) Op {
 			useGroupOpt = true
 		}
 	}
-	if !useAs && !useNameOpt && !useGroupOpt && g.pct(g.k.PAsObj, "asobj") {
+	if !multiGroupOpt && !useAs && !useNameOpt && !useGroupOpt && g.pct(g.k.PAsObj, "asobj") {
 		// dig threads the As option into every non-group result, also
 		// inside result objects: pick interfaces all of them implement
 		var cands []string
@@ -769,11 +835,28 @@ func (g *gen) genProvide(s int) Op {
 			}
 		}
 		if len(cands) > 0 {
-			o.As = []string{cands[g.pick(len(cands), "asobji")]}
+			// one to three of them, in any order (a result whose own type is
+			// listed keeps that type out of its own As set only)
+			n := 1 + g.pick(len(cands), "asobjn")
+			if n > 3 {
+				n = 3
+			}
+			start := g.pick(len(cands), "asobji")
+			o.As = nil
+			for j := 0; j < n; j++ {
+				o.As = append(o.As, cands[(start+j)%len(cands)])
+			}
 			// keys change: keep the predicted model right by rebuilding below
 		}
 	}
-	if useNameOpt || useGroupOpt || useAs {
+	if multiGroupOpt {
+		f.R = nil
+		for _, l := range rl {
+			r := l.result()
+			r.Group = ""
+			f.R = append(f.R, r)
+		}
+	} else if useNameOpt || useGroupOpt || useAs {
 		l := rl[0]
 		r := l.result()
 		if useNameOpt {
@@ -931,8 +1014,13 @@ func (g *gen) genProvide(s int) Op {
 		case g.k.WrapAlt:
 			af.P = g.wrapParams(f.P)
 			af.R = f.R
-		case useAs:
+		case useAs || (multiGroupOpt && len(o.As) > 0):
 			af.R = f.R // As needs the positional/option form
+		case multiGroupOpt:
+			// Group option on several results -> a group tag on each field
+			ao.Group = ""
+			af.R = g.encodeResults(rl, false)
+			g.labelAlt("opt-tag-move")
 		case useNameOpt || useGroupOpt:
 			// option form -> tag form
 			ao.Name, ao.Group = "", ""
@@ -982,6 +1070,7 @@ func (g *gen) genDecorate(s int) (Op, bool) {
 	f := g.newFn()
 	var pl []pleaf
 	var rl []rleaf
+	orphan := false
 	nkeys := 1
 	if g.pct(g.k.PDecoMulti, "multi") {
 		nkeys = 2
@@ -999,6 +1088,8 @@ func (g *gen) genDecorate(s int) (Op, bool) {
 				// a group that nothing feeds (perhaps nothing consumes either)
 				k = MKey{T: g.randType(lbl + "ogt"), Group: g.pickStr(g.k.Groups, lbl+"ogn")}
 			}
+			orphan = true
+			g.orphans = append(g.orphans, k) // later operations ask for it
 		} else if len(groups) > 0 && (len(singles) == 0 || g.pct(g.k.PDecoGroup, lbl+"grp")) {
 			k = groups[g.pick(len(groups), lbl+"gk")]
 		} else if len(singles) > 0 {
@@ -1059,6 +1150,11 @@ func (g *gen) genDecorate(s int) (Op, bool) {
 	f.R = g.encodeResults(rl, false)
 	g.errAndVariadic(f)
 	g.faults(f)
+	if orphan && len(f.Faults) == 0 && !g.k.NoFaults && g.k.PFault > 0 && g.pct(30, "orphanfault") {
+		// a failing decorator of a key that nothing provides
+		f.Err = true
+		f.Faults = []int{FaultError}
+	}
 	if g.pct(g.k.PReenterDeco, "reenterdeco") {
 		rs := g.pickScope("drs")
 		var rl2 []pleaf
@@ -1412,6 +1508,11 @@ func GenCase(t *rapid.T, k Knobs) *Case {
 				return
 			}
 			add(g.genInvoke(is))
+			if g.pct(g.k.PVisAfter, "visafter") {
+				// Visualize with (the error of) this very Invoke
+				e := len(g.c.Ops) - 1
+				add(Op{K: OpVisualize, ErrOf: &e})
+			}
 		}},
 		{k.WVisualize, func() {
 			op := Op{K: OpVisualize}
